@@ -85,7 +85,19 @@ func checkC02(r *Run) {
 			continue
 		}
 		if c := r.oneCall("C02-R3", w.fn, f, bankK+"SendCoins"); c != nil {
-			t := P.callTerm(c).String()
+			tt := P.callTerm(c)
+			if g := enclosingTop(c.Parent()); g != f {
+				// the forwarding moved into a function of the pinned tree that f newly calls: read its SendCoins call
+				// with f's arguments in place of its parameters
+				for _, site := range CallsIn(f, short(g.String())) {
+					m := map[string]*Term{}
+					for i, p := range g.Params {
+						m[pinnedParamName(p)] = argTerm(P.callTerm(site), i)
+					}
+					tt = tt.Subst(m)
+				}
+			}
+			t := tt.String()
 			want := bankK + "SendCoins(param:k, param:ctx, " + w.from + ", " + w.to + ", param:amt)"
 			r.Check(t == want, "C02-R3", w.fn+"/forwards", P.InstrPos(c), t, "forwards "+t+" ; required "+want)
 		}
